@@ -114,6 +114,20 @@ fn check_subsets(rep: &mut Report, s: &Setup) {
             rep.count("subsets exactly at 2/3 (either answer allowed)");
         }
     }
+    // what a confirming call hands back is this state and this proof
+    {
+        let full: BTreeMap<Ed25519PK, Bytes> = (0..n).map(|i| (s.keys[i].pk, sigs[i].clone())).collect();
+        let st = s.sealed.clone();
+        let want_hdr = st.header();
+        let pf = full.clone();
+        rep.eval();
+        if let Ok(Some((hdr, proof_back))) = guarded(move || st.confirm(pf).map(|cs| (cs.inner().header(), cs.cproof().clone()))) {
+            rep.count("confirmed states inspected");
+            if hdr != want_hdr || proof_back != full {
+                rep.violate("C14|confirmed-state-is-another|SealedState::confirm|all-stakers-sign", "the confirmed state returned does not wrap the state that was confirmed, or not the proof that confirmed it".into(), json!({"setup": s.desc}));
+            }
+        }
+    }
     // the same proofs padded with VALID signatures of keys that hold no voting power (1, n+1 and 4n+1 of them, so that
     // the proof has more entries than there are stakers, stakes, or both): the signers' power is what counts, and
     // adding valid signatures never un-confirms
